@@ -275,6 +275,11 @@ theorem popBlank_trail (M : List Line) : Trail 1 (popBlank M) M := by
     simp
   · exact (Trail.refl M).mono (by omega)
 
+theorem popBlank_prefix' (X : List Line) : popBlank X <+: X := by
+  unfold popBlank; split
+  · exact List.dropLast_prefix X
+  · exact List.prefix_refl X
+
 theorem pySlice_nonneg (lines : List α) (lo : Nat) (hi : Int) (h : 0 ≤ hi) :
     pySlice lines lo hi = (lines.take hi.toNat).drop lo := by
   unfold pySlice
